@@ -17,6 +17,8 @@ R8  C++: every member that yy_init_globals of the C scanners resets and that a m
     constructor path (sibling agreement ctor_common <-> yy_init_globals).
 R9  %array: every bulk copy into the yytext array is dominated by a capacity comparison that covers destination offset + length
     (all additive terms, e.g. yy_more_offset) and whose failing edge is fatal.
+R10 REJECT: every cell the yyreject() expansion restores from (yy_full_match, yy_full_lp, yy_full_state) is saved for the current
+    token on every path from the token start / from the arm that starts the trailing-context search to the restore.
 R5  every field/static whose zero value triggers lazy initialisation is reset by yy_init_globals, which yylex_destroy calls
     after its frees; arrays released in yylex_destroy have their index/capacity companions reset too.
 """
@@ -1066,6 +1068,71 @@ def r9(rep, v, prog, mod, F):
                     replay_input='%array scanner with yymore(): pieces accumulated with yymore() whose total length reaches YYLMAX while the last piece is shorter')
     return n
 
+# ---------------------------------------------------------------- R10
+
+def _state_accesses(F, fn, pred):
+    """(loads, stores) of yylex whose address is a field/global with a canonical name satisfying pred"""
+    F.o(fn); res = F.res[fn.name]
+    ld = []; st = []
+    for x in fn.ins:
+        if x.op not in ('load', 'store'): continue
+        c = ir.loc_class(res.loc(x.ops[0] if x.op == 'load' else x.ops[1]))
+        if not c: continue
+        nm = ccanon(c[2]) if c[0] == 'field' else ccanon(c[1]) if c[0] == 'global' else None
+        if nm and pred(nm): (ld if x.op == 'load' else st).append((nm, x))
+    return ld, st
+
+def r10(rep, v, prog, mod, F):
+    """REJECT: every cell the yyreject() expansion loads to restore the scan state (yy_full_match, yy_full_lp, yy_full_state) has
+    been saved for the current token.  Two-part typestate inside yylex:
+      (a) from the start of a token (yy_state_ptr = yy_state_buf) no restore-load is reachable without passing a save of that
+          cell or the arm that ends the search for a trailing-context head (yy_looking_for_trail_begin = 0), which can only be
+          reached after the search was started;
+      (b) from every point where that search is started (a non-constant store to yy_looking_for_trail_begin) no restore-load is
+          reachable without passing a save of that cell."""
+    n = 0
+    lex = [f for f in mod.functions.values() if f.blocks and fkey(f) == 'yylex']
+    for fn in lex:
+        ld, st = _state_accesses(F, fn, lambda nm: nm.startswith('yyfull') or nm in ('yylookingfortrailbegin', 'yystateptr'))
+        cells = sorted({nm for nm, x in ld if nm.startswith('yyfull')})
+        if not cells: continue
+        O = F.o(fn)
+        starts = []
+        for nm, x in st:
+            if nm != 'yystateptr': continue
+            for o_ in O.of(x.ops[0]):
+                if o_[0] == 'load' and not o_[-1] and any(_named(nn, 'yystatebuf') for nn in F.addr_nodes(fn, o_[1])): starts.append(x); break
+        if not starts: rep.broken('C13.R10: %s of %s restores %s but has no token start (yy_state_ptr = yy_state_buf) [variant]' % (fn.name, v.name, cells))
+        lk_on = [x for nm, x in st if nm == 'yylookingfortrailbegin' and x.ops[0][0] != 'int']
+        lk_off = [x for nm, x in st if nm == 'yylookingfortrailbegin' and x.ops[0] == ('int', 0)]
+        cfg = prog.cfg(fn)
+        for cell in cells:
+            saves = [x for nm, x in st if nm == cell]
+            loads = [x for nm, x in ld if nm == cell]
+            field = {'yyfullmatch': 'yy_full_match', 'yyfulllp': 'yy_full_lp', 'yyfullstate': 'yy_full_state'}.get(cell, cell)
+            key = 'C13.R10:%s:yylex:%s:restored-but-never-saved' % (skel(v), field)
+            probes = [(t, 'the start of a token', saves + lk_off, False) for t in starts]
+            arms = []
+            for s_ in lk_on:
+                # the arm begins where the branch that decides to start the search lands (statement order inside the arm is free)
+                ents = [t for br, t in prog.cfg(fn, cut=False).control_deps(s_.blk) if cfg.dominates(t, s_.blk)] or [s_.blk]
+                for t in ents:
+                    if t not in arms: arms.append(t); probes.append((t.ins[0], 'the arm that starts looking for the head of a trailing-context rule', saves, True))
+            for src, what, avoid, incl in probes:
+                n += 1
+                r = cfg.reach(src, avoid=avoid, include_start=incl)
+                bad = [x for x in loads if x in r]
+                if not bad:
+                    rep.ok('C13.R10', '%s %s: %s is saved on every path from %s (line %s) to its %d restore site(s)' % (v.name, fn.name, field, what, src.line, len(loads)))
+                else:
+                    p = cfg.path(src, lambda y: y is bad[0], avoid=avoid, include_start=incl)
+                    rep.fail('C13.R10', key, where(bad[0]),
+                             'yyreject() restores the scan state from %s, but a path from %s (line %s) reaches that load without saving it for this token: the scanner '
+                             'backs up to a stale or never-written position [variant %s]' % (field, what, src.line, v.name),
+                             witness=['%s:%s' % (y.blk.name, y.line) for y in p] if p else None, variant=v.describe(),
+                             replay_input='%option noyywrap\n%%\n[a-z]+/[0-9]+x { REJECT; }\n[a-z]+ { }\n[0-9]+ { }\n.|\\n ;\n%%\n/* input: bar77x */')
+    return n
+
 def controls(ctx):
     rep = ctx.rep
     mod = compile_control(ctx, 'c13_control.c')
@@ -1106,7 +1173,7 @@ def run(ctx):
     rep.require(len(vs) >= 100, 'only %d scanner variants compiled to IR' % len(vs))
     tot = dict(R1=0, R2=0, R3=0, R4=0, R5=0, R6=0, R8=0); nrej = 0; nfn = 0
     # what the C scanners of the cpp skeleton reset in yy_init_globals (union over the nr / r variants): reference for R8
-    cinit = set(); flows = {}
+    cinit = set(); flows = {}; nr10 = set()
     for v in vs:
         if v.backend in ('nr', 'r'):
             mod = variants.module(v); flows[v.name] = Flow(variants.program(v), mod)
@@ -1120,6 +1187,10 @@ def run(ctx):
             k = r9(rep, v, prog, mod, F)
             if k < 1: rep.broken('C13.R9: %%array variant %s has no bulk copy into the yytext array' % v.name)
             tot['R9'] = tot.get('R9', 0) + k
+        if 'M4_MODE_USES_REJECT' in variants.mode_symbols(v):
+            k = r10(rep, v, prog, mod, F)
+            tot['R10'] = tot.get('R10', 0) + k
+            if k: nr10.add(('vartrail' if 'M4_MODE_VARIABLE_TRAILING_CONTEXT_RULES' in variants.mode_symbols(v) else 'plain', v.backend))
         nfn += len(mod.functions)
         tot['R1'] += r1(rep, v, prog, mod, F)
         tot['R2'] += r2(rep, v, prog, mod, F)
@@ -1142,6 +1213,9 @@ def run(ctx):
     rep.floor('C13.R4', 880, 'measured 966: 6-14 releases of stored pointers + the slot clearing per variant')
     rep.floor('C13.R5', 1100, 'measured 1195: 4-7 lazily initialised locations + destroy order + 4-6 companions per variant')
     rep.floor('C13.R8', 280, 'measured 316 (quick): 10-16 members x 2 constructors in each C++ variant')
+    for need in (('vartrail', 'nr'), ('vartrail', 'r'), ('vartrail', 'cxx'), ('vartrail', 'c99'), ('plain', 'nr')):
+        if need not in nr10: rep.broken('C13.R10: no %s variant with a yyreject() expansion (%s) was analysed' % (need[1], need[0]))
+    rep.floor('C13.R10', 100, 'start-of-token and start-of-search probes for 1-3 restored cells in each REJECT variant that contains a yyreject() expansion')
     rep.floor('C13.R9', 6, 'one copy in YY_DO_BEFORE_ACTION / yy_do_before_action of each of the >=6 %array variants')
     rep.floor('C13.R7', 6, 'th.th_version in yytbl_fload of every tables-file variant')
     rep.floor('C13.R6', 300, 'measured 335: 2-3 allocation sites of yy_ch_buf per variant')
